@@ -53,6 +53,16 @@ let register (reg : string -> (string list -> string) -> unit) : unit =
   reg "rle_decode_fi" (fun a -> match a with
     | [r; c; bits; spp; pl; s] -> outcome_hex (RleModel.rle_decode_frame (frameinfo r c bits spp pl) (bytes_of_hex s))
     | _ -> "?");
+  (* rle_encode_fi <rows> <cols> <bitsAllocated> <spp> <planar> <hexframe> : encodeFrame, arbitrary FrameInfo *)
+  reg "rle_encode_fi" (fun a -> match a with
+    | [r; c; bits; spp; pl; s] -> outcome_hex (RleModel.rle_encode_frame (frameinfo r c bits spp pl) (bytes_of_hex s))
+    | _ -> "?");
+  (* rle_alloc_fi ... -> none | <bytes requested by make([]byte, frameSize)> *)
+  reg "rle_alloc_fi" (fun a -> match a with
+    | [r; c; bits; spp; pl; s] ->
+      (match RleModel.rle_decode_alloc (frameinfo r c bits spp pl) (bytes_of_hex s) with
+       | Some n -> string_of_int (int_of_z n) | None -> "none")
+    | _ -> "?");
   (* rle_decode_fi_prefix ... -> ok | err | panic : outcome before the first segment is decoded *)
   reg "rle_decode_fi_prefix" (fun a -> match a with
     | [r; c; bits; spp; pl; s] ->
